@@ -3,7 +3,7 @@
 const path = require('path')
 const { encodeMap } = require('./smap')
 
-const SITE_KINDS = ['body', 'operand', 'multiline', 'double', 'arrow', 'method', 'eval', 'evalfn', 'msg-loc', 'callback', 'msg-newline', 'throw', 'helper', 'msg-at']
+const SITE_KINDS = ['body', 'operand', 'multiline', 'double', 'arrow', 'method', 'eval', 'evalfn', 'msg-loc', 'builtin-callback', 'callback', 'msg-newline', 'throw', 'helper', 'msg-at']
 
 // returns {text, sites:[{k, kind, fn, line, cbLine?}], kind, omap?}
 function genVersion (rng, fi, vi, kind, o) {
@@ -64,6 +64,17 @@ function genVersion (rng, fi, vi, kind, o) {
         add('}')
         site.entry = `${N}c`
         site.line = 0
+        break
+      }
+      case 'builtin-callback': {
+        // the Error is created in a callback run by a JS builtin: a frame without a file name sits between
+        add(`function ${N}c (x) {`)
+        site.cbLine = add(`  return [x].map(${N})[0]`)
+        add('}')
+        add(`function ${N} (y) {`)
+        site.line = add(plain ? "  return new Error('in map')" : "  return new Error(y + 'm')")
+        add('}')
+        site.entry = `${N}c`
         break
       }
       case 'msg-loc': {
